@@ -132,6 +132,11 @@ func RunMonitor(a MonArgs) int {
 		agg.Cases += r.summary.Cases
 		agg.Evals += r.summary.Evals
 		for k, v := range r.summary.Cells {
+			if strings.HasPrefix(k, "xproc|") {
+				// per-process facts for CrossCheck: counted, not listed among the coverage cells
+				agg.Counters["cross_process_facts_recorded"]++
+				continue
+			}
 			agg.Cells[k] += v
 		}
 		for k, v := range r.summary.Counters {
@@ -170,6 +175,19 @@ func RunMonitor(a MonArgs) int {
 		}
 		for _, i := range r.timeouts {
 			inconc = append(inconc, fmt.Sprintf("watchdog fired in case %d (no logical bound exceeded)", i))
+		}
+	}
+
+	// --- offline check over what the worker processes recorded, where the property offers one: a fact that must be
+	// the same in every process (each worker is a process of its own, with its own history of earlier cases)
+	if cc, ok := p.(CrossChecker); ok && a.Replay == "" {
+		var per []map[string]int
+		for _, r := range res {
+			per = append(per, r.summary.Cells)
+		}
+		for _, v := range cc.CrossCheck(a.Ctx, per) {
+			vv := v
+			viols = append(viols, Event{Ev: "viol", I: -1, Viol: &vv})
 		}
 	}
 
@@ -544,6 +562,12 @@ func readShard(out string, r *shardResult) bool {
 // process happens to die varies from run to run (memory exhaustion), a name for
 // the case instead of the function - so that a recorded finding covers neither
 // more nor less than the crash it describes. "" keeps the default.
+// CrossChecker is implemented by a property whose workers record facts (as cells) that must agree between
+// processes; the monitor hands it every worker's cells after the run.
+type CrossChecker interface {
+	CrossCheck(ctx Ctx, perWorker []map[string]int) []Violation
+}
+
 type CrashTagger interface {
 	CrashTag(c any, kind, fn string) string
 }
